@@ -713,7 +713,7 @@ func (p *produceRequest) undoStagedBatches(txnReq *kmsg.AddPartitionsToTxnReques
 		if txnReq != nil && txnReqContains(txnReq, batch.owner.topic, batch.owner.partition) {
 			batch.owner.addedToTxn.Store(false)
 		}
-		batch.owner.resetBatchDrainIdx()
+		batch.owner.rewindDrainTo(batch.recBatch)
 		batch.decInflight()
 	})
 }
@@ -1879,6 +1879,32 @@ func (recBuf *recBuf) clearFailing() {
 
 	recBuf.failing = false
 	recBuf.maybeTriggerDrain()
+}
+
+// rewindDrainTo rewinds the drain index and sequence number to just before
+// batch, which was staged into a request that will not be issued. Earlier
+// batches can be in flight from prior requests (idempotent pipelining) and
+// must stay drained: resetting the index to zero while they are in flight
+// lets their successful responses decrement it below zero, and the next
+// createReq then indexes recBuf.batches with a negative index.
+func (recBuf *recBuf) rewindDrainTo(batch *recBatch) {
+	seq := recBuf.batch0Seq
+	for i, b := range recBuf.batches {
+		if b == batch {
+			if recBuf.batchDrainIdx > i {
+				recBuf.cl.cfg.logger.Log(LogLevelDebug, "rewinding produce sequence to resend a staged batch",
+					"topic", recBuf.topic,
+					"partition", recBuf.partition,
+					"rewind_from", recBuf.seq,
+					"rewind_to", seq,
+				)
+				recBuf.batchDrainIdx = i
+				recBuf.seq = seq
+			}
+			return
+		}
+		seq = incrementSequence(seq, int32(len(b.records)))
+	}
 }
 
 func (recBuf *recBuf) resetBatchDrainIdx() {
